@@ -8,6 +8,7 @@ C09.ret    both converters return a value on every path (an entity / a node, nev
 C09.same   every attribute / data the serialiser writes from input is fed by the same (path, key) of the input
 C09.kept   every (path, key) the parser stores in the entity is written back at the same place
 C09.api    every method invoked on a ProtocolTreeNode exists
+C09.payload the <proto> payload of message entities goes through C10's converter: C10.bij / C10.has / C10.top adopted
 C09.fresh  a container a converter loop fills and hands to the per-element object is allocated inside the loop
 C09.wire   C01's codec round-trip rules adopted (a stanza survives the codec unchanged)
 C09.codec  attribute values that are definitely not strings (int / None) and data that is definitely str are flagged
@@ -240,13 +241,28 @@ def rule_fresh(ctx):
     ctx.units["C09.per_element_containers"] = n
 
 
+def rule_payload(ctx):
+    """message entities keep their content in a <proto> payload that is parsed into attribute objects and serialised
+    again through the hand-written converter: 're-serialising reproduces the stanza' needs that converter to be a
+    bijection - C10.bij / C10.has / C10.top adopted."""
+    from . import c10
+    from ..report import Ctx
+    scratch = Ctx(ctx.repo, "C10", ctx.tier)
+    for r in ("C10.bij", "C10.desc", "C10.has", "C10.top", "C10.acc"):
+        scratch.rule(r, "", 0)
+    cv = c10.Conv(scratch)
+    c10.rule_bij_desc_has(scratch, cv)
+    c10.rule_top(scratch, cv)
+    ctx.adopt(scratch, {"C10.bij": "C09.payload", "C10.has": "C09.payload", "C10.top": "C09.payload"})
+
+
 def rule_wire(ctx):
     """'survives the codec unchanged': given well-typed tags / attributes / data (C09.codec), a stanza survives iff the
     codec is a round trip - that is C01's rule set, adopted here so that a codec change is reported against C09 too."""
     from . import c01
     from ..report import Ctx
     scratch = Ctx(ctx.repo, "C01", ctx.tier)
-    for r in ("C01.tags", "C01.int", "C01.class", "C01.pack", "C01.dbl", "C01.unpack"):
+    for r in ("C01.tags", "C01.int", "C01.class", "C01.pack", "C01.dbl", "C01.unpack", "C01.count"):
         scratch.rule(r, "", 0)
     widths = c01.rule_int(scratch)
     c01.rule_class(scratch, widths)
@@ -255,11 +271,13 @@ def rule_wire(ctx):
     tables = c01.rule_pack(scratch)
     if tables:
         c01.rule_unpack(scratch, tables)
-    ctx.adopt(scratch, {r: "C09.wire" for r in ("C01.tags", "C01.int", "C01.class", "C01.pack", "C01.dbl", "C01.unpack")})
+    c01.rule_count(scratch)
+    ctx.adopt(scratch, {r: "C09.wire" for r in ("C01.tags", "C01.int", "C01.class", "C01.pack", "C01.dbl", "C01.unpack", "C01.count")})
 
 
 def run(ctx):
     ctx.rule("C09.wire", "the codec the stanzas pass through is a round trip (C01.int/class/tags/dbl/pack/unpack adopted)", floor=40)
+    ctx.rule("C09.payload", "the payload converter message entities are parsed and re-serialised through is a bijection (C10.bij/has/top adopted)", floor=100)
     ctx.rule("C09.fresh", "containers filled per element inside converter loops are allocated per element", floor=5)
     ctx.rule("C09.ret", "converters return an entity / a node on every path", floor=40)
     ctx.rule("C09.same", "written values are fed by the same (path, key) of the input", floor=40)
@@ -276,7 +294,7 @@ def run(ctx):
         w = where(cls.relpath, cls.name, None)
         tag = root_tag(repo, cls)
         try:
-            r = analyse_class(ctx, repo, cls, tag)
+            r = ctx.guarded("C09.class", analyse_class, ctx, repo, cls, tag)
         except Budget:
             not_analysed.append(cls.name)
             ctx.note("%s: cell enumeration exceeded its budget (not analysed)" % cls.name)
@@ -323,7 +341,7 @@ def run(ctx):
             k = sorted(r["codec"])[0]
             ctx.note("%s (receive-side only): %s[%s] %s - compared by value on re-serialisation, never sent" % (cls.name, "/".join(k[0]) or "stanza", k[1], r["codec"][k]))
     ctx.units["C09.not_analysed"] = not_analysed
-    rule_codec_sent(ctx, repo)
+    ctx.guarded("C09.codec_sent", rule_codec_sent, ctx, repo)
 
 
 def rule_codec_sent(ctx, repo):
@@ -381,5 +399,6 @@ def rule_codec_sent(ctx, repo):
             probs += sorted({t for _, t in it.api_misuse})
         ctx.check("C09.codec", not probs, w, label, "; ".join(probs[:3]) + " (the encoder needs strings for tags/attributes and bytes for data)", "no definitely mistyped tag, attribute value or data")
     ctx.units["C09.sent_classes_analysed"] = n
-    rule_wire(ctx)
-    rule_fresh(ctx)
+    ctx.guarded("C09.wire", rule_wire, ctx)
+    ctx.guarded("C09.fresh", rule_fresh, ctx)
+    ctx.guarded("C09.payload", rule_payload, ctx)
